@@ -16,7 +16,7 @@
      completion orders, repeated runs: ./check C08), not proved. *)
 From Coq Require Import List Bool String.
 Import ListNotations.
-Require Import CV.ForkJoin CV.ForkJoinProofs CV.Effects_gen.
+Require Import CV.ForkJoin CV.ForkJoinProofs CV.Effects_gen CV.Determinism CV.DeterminismProofs CV.Nondet_gen.
 Local Open Scope string_scope.
 
 (* [F] every interleaving of two independent tasks = first task, then second task *)
@@ -115,6 +115,21 @@ Proof.
   exists [Write "g" (fun _ => 1)], [Write "g" (fun _ => 2)]. vm_compute. intros [H _]. discriminate.
 Qed.
 
+(* [F over the GENERATED table; the translator is trusted] "a pure function of the circuit and the parameters":
+   tools/nondet.py regenerates from clang's AST and a token scan of the tree under check every use of a value derived
+   from a clock (std::chrono::*::now(), time(), clock(): taint followed through variables, duration arithmetic and
+   .count()) and every other external source (std::random_device, rand/srand, getenv, getpid, thread ids, %p, unordered
+   containers keyed by pointers, random_shuffle, hardware_concurrency, addresses cast to integers).  On this tree every
+   clock-derived value only reaches a variable or an ostream print (the "... done in N s" messages), and no other
+   source occurs; the pseudo-random engines are listed for information (an engine is deterministic unless fed by one
+   of these sources; a static engine is caught by sm_globals of the first table).  A time budget, a time-derived
+   seed, a random_device, ... break this theorem even when no repeated run happens to differ. *)
+Theorem c08_no_nondeterminism_source : nondet_ok nondet_facts.
+Proof. exact (proj1 (nondet_okb_correct nondet_facts) (eq_refl true)). Qed.
+
+Theorem c08_nondet_rule_correct : forall l, nondet_okb l = true <-> nondet_ok l.
+Proof. exact nondet_okb_correct. Qed.
+
 Print Assumptions c08_schedule_independent.
 Print Assumptions c08_any_two_schedules_agree.
 Print Assumptions c08_completion_order_irrelevant.
@@ -123,3 +138,5 @@ Print Assumptions c08_runLB_summary_ok.
 Print Assumptions c08_runLB_footprints_disjoint.
 Print Assumptions c08_runLB_schedule_independent.
 Print Assumptions c08_runLB_completion_order_irrelevant.
+Print Assumptions c08_no_nondeterminism_source.
+Print Assumptions c08_nondet_rule_correct.
